@@ -137,6 +137,20 @@ Theorem C09_ssh_payload_sound : forall fuel data acc l,
   (length (concat l) + 4 * length l <= length (concat acc) + 4 * length acc + length data)%nat.
 Proof. exact ssh_strings_sound. Qed.
 
+(* ipp: the two loops that walk the attribute groups of a request body end for EVERY body, cut
+   at any position - exactly at a group boundary included - within (bytes left + 3) rounds,
+   whatever the value decoders do as long as they keep the data, never move the offset back or
+   past the end, and never clear the decoder's error *)
+Theorem C09_ipp_group_loops_end : forall (vdecode : N -> idec -> idec),
+  (forall t d, i_data (vdecode t d) = i_data d) ->
+  (forall t d, (i_off d <= length (i_data d))%nat ->
+               (i_off d <= i_off (vdecode t d) <= length (i_data d))%nat) ->
+  (forall t d, i_err d = true -> i_err (vdecode t d) = true) ->
+  forall fuel d, (i_off d <= length (i_data d))%nat ->
+                 (length (i_data d) - i_off d + 3 <= fuel)%nat ->
+  ipp_groups vdecode fuel d <> IFuel.
+Proof. exact ipp_groups_ends. Qed.
+
 (* ftp resources: the counters kept by the model (spawned minus released on every path) are at
    every step exactly what the data socket in hand accounts for plus the pump; so a returning
    control loop holds nothing, and the recovered panic holds exactly one unconnected passive
@@ -282,6 +296,17 @@ Proof.
   split; [repeat split; vm_compute; reflexivity|vm_compute; reflexivity].
 Qed.
 
+(* ipp bodies (after the 8-byte header) that end exactly at a group boundary: one group tag and
+   nothing else; an empty body; a complete one.  The value decoder here skips a 2-byte value. *)
+Example C09_ipp_cut_at_group_boundary :
+  let vd := fun (_ : N) (d : idec) =>
+              if (i_off d + 2 <=? length (i_data d))%nat then mkD (i_data d) (i_off d + 2) (i_err d)
+              else mkD (i_data d) (i_off d) true in
+  (exists d, ipp_groups vd 10 (mkD [1]%N 0 false) = IErr d) /\
+  (exists d, ipp_groups vd 10 (mkD [] 0 false) = IErr d) /\
+  (exists d, ipp_groups vd 10 (mkD [1;68;0;0;2;3]%N 0 false) = IOk d).
+Proof. cbv zeta. repeat split; eexists; vm_compute; reflexivity. Qed.
+
 (* the fragment hypothesis is not vacuous for ftp/smtp, and it does exclude something *)
 Example C09_fragment_nonvacuous :
   in_fragment (mkScn Smtp false false DialNone) (mkConn [[72;69;76;79;32;120;13;10]%N] TEof m0) /\
@@ -308,6 +333,7 @@ Print Assumptions C09_write_one_deadline.
 Print Assumptions C09_buffered_writer_one_deadline.
 Print Assumptions C09_ssh_payload_loop_ends.
 Print Assumptions C09_ssh_payload_sound.
+Print Assumptions C09_ipp_group_loops_end.
 Print Assumptions C09_released_ftp.
 Print Assumptions C09_released_other_services.
 Print Assumptions C09_history_additive.
